@@ -454,6 +454,8 @@ func (l *lockerSim) checkNoNeedlessWait(ps []*Task, tasks []*Task) {
 			add(r)
 		}
 	}
+	// The waiting requests (inside Lock, not parked anywhere, not cancelled).
+	var waiting []*lockRec
 	for _, tk := range tasks {
 		r := l.cur[tk]
 		if r == nil || !r.invoked || r.returned || r.cancelled {
@@ -462,49 +464,66 @@ func (l *lockerSim) checkNoNeedlessWait(ps []*Task, tasks []*Task) {
 		if _, isParked := parkedAt[tk]; isParked {
 			continue
 		}
-		conflict := false
+		waiting = append(waiting, r)
+	}
+	conflicts := func(r, q *lockRec) bool {
+		qw, qr := map[string]bool{}, map[string]bool{}
+		for _, a := range q.write {
+			qw[a] = true
+		}
+		for _, a := range q.read {
+			qr[a] = true
+		}
+		for _, a := range r.read {
+			if qw[a] {
+				return true
+			}
+		}
+		for _, a := range r.write {
+			if qw[a] || qr[a] {
+				return true
+			}
+		}
+		return false
+	}
+	// A waiter has a reason to wait when it conflicts with something that holds or may hold a
+	// lock -- or with another waiter that has a reason to wait: a lock manager may keep a request
+	// behind a waiter it conflicts with (first come first served per account, writers not
+	// starved, ...), which is not a lost grant. Which of two waiters came first is the lock
+	// manager's own business (it cannot be read off the schedule reliably once scheduling points
+	// sit between the statements of Lock), so the order is not part of the rule; a request that
+	// waits for ever is caught at the end of the run whatever the policy.
+	justified := map[*lockRec]bool{}
+	for _, r := range waiting {
 		for _, a := range r.read {
 			if writes[a] {
-				conflict = true
+				justified[r] = true
 			}
 		}
 		for _, a := range r.write {
 			if writes[a] || reads[a] {
-				conflict = true
+				justified[r] = true
 			}
 		}
-		// a lock manager may also keep a request behind an EARLIER waiter it conflicts with
-		// (first come first served, so that writers are not starved): that is not a lost grant
-		for _, tk2 := range tasks {
-			q := l.cur[tk2]
-			// "earlier" = queued earlier: the order in which the waiters reached the lock manager
-			if q == nil || q == r || !q.invoked || q.returned || q.cancelled || q.queueStep >= r.queueStep {
+	}
+	for changed := true; changed; {
+		changed = false
+		for _, r := range waiting {
+			if justified[r] {
 				continue
 			}
-			if _, isParked := parkedAt[tk2]; isParked {
-				continue
-			}
-			qw := map[string]bool{}
-			for _, a := range q.write {
-				qw[a] = true
-			}
-			qr := map[string]bool{}
-			for _, a := range q.read {
-				qr[a] = true
-			}
-			for _, a := range r.read {
-				if qw[a] {
-					conflict = true
-				}
-			}
-			for _, a := range r.write {
-				if qw[a] || qr[a] {
-					conflict = true
+			for _, q := range waiting {
+				if q != r && justified[q] && conflicts(r, q) {
+					justified[r] = true
+					changed = true
+					break
 				}
 			}
 		}
-		if !conflict {
-			l.violate("waiting-although-compatible", fmt.Sprintf("%s (R=%v W=%v) is still waiting inside Lock although nothing that holds or may hold a lock conflicts with it", r.name, r.read, r.write))
+	}
+	for _, r := range waiting {
+		if !justified[r] {
+			l.violate("waiting-although-compatible", fmt.Sprintf("%s (R=%v W=%v) is still waiting inside Lock although nothing that holds or may hold a lock conflicts with it, directly or through another waiting request", r.name, r.read, r.write))
 		}
 	}
 }
